@@ -54,10 +54,10 @@ func nameOracle(name string) int {
 				strict = false
 			}
 		}
-		if strict {
-			return 0 // formatted as an IPv4 address
-		}
-		return -1 // leading zeros / >255: look-alike, either answer
+		_ = strict
+		// four dot-separated groups of digits: formatted as an IP address, whether or not a
+		// resolver would accept the numbers (leading zeros, components above 255)
+		return 0
 	}
 	return 1
 }
@@ -130,7 +130,7 @@ func c17Names(maxLen int) (chunks [][]string, total int) {
 func runC17(c *engine.Ctx) {
 	c.Level = "model_checking"
 	c.Rule = "case = PUT /<name> for every string over {a,z,0,9,-,.,A,_} up to the length bound plus the length/IP families, on mem, bolt and multi-bucket fs, compared with an independent regex-free implementation of the stated rule; refused names are probed with HEAD, and after every chunk ListBuckets must equal the set of created names; plus every ordered triple of 9 valid names that are prefixes/neighbours of one another created in one store (each must be accepted, listed, refused as existing when repeated, and deletable alone); plus every sequence of <= 6 (thorough: 8) object, copy, multi-delete, multipart, versioning and form-upload requests interleaved with create/delete of the bucket, after each of which ListBuckets and HEAD bucket must agree with the set of buckets created and not deleted; distinct_nontrivial = distinct names accepted by the oracle"
-	c.Assumptions = append(c.Assumptions, "IPv4 look-alikes with leading zeros or components > 255 may be accepted or refused", "names containing '/' address a key, not a bucket, and are not bucket names")
+	c.Assumptions = append(c.Assumptions, "names containing '/' address a key, not a bucket, and are not bucket names")
 	maxLen := 6
 	if !quick(c) {
 		maxLen = 7
